@@ -198,6 +198,7 @@ type AdmitCase struct {
 	NSLabels            map[string]string
 	NSErr               bool
 	NSErrKind           int                // index into nsErrKinds
+	CtxCancelled        bool               // the request's context is already cancelled when Validate is called
 	cancelRequest       context.CancelFunc // set by runGo
 	Pods                []*corev1.Pod
 	ListErr             bool
@@ -331,7 +332,7 @@ func defaultsPolicy(d admissionapi.PodSecurityDefaults) api.Policy {
 // normalize: a request whose deadline has already passed (Remaining of a nanosecond) is, for the dry run, a request that is
 // cancelled during the first evaluation
 func (a *AdmitCase) normalize() {
-	if a.Remaining > 0 && a.Remaining < time.Millisecond {
+	if (a.Remaining > 0 && a.Remaining < time.Millisecond) || a.CtxCancelled {
 		a.ExpireAfter = 0
 	}
 }
@@ -452,6 +453,9 @@ func (a *AdmitCase) runGo() (out AdmitOut) {
 	}
 	defer cancel()
 	a.cancelRequest = cancel
+	if a.CtxCancelled {
+		cancel()
+	}
 	adm := newAdmission(a, ev, rec, lister)
 	ev.cancel = cancel
 	defer func() {
@@ -686,6 +690,9 @@ func runHistory(group []*AdmitCase, order []int) []AdmitOut {
 			h.rec = &recorder{}
 			h.lister = &fakeLister{pods: a.Pods, err: a.ListErr}
 			h.ns = fakeNS{labels: a.NSLabels, err: a.NSErr, kind: a.NSErrKind, cancel: cancel}
+			if a.CtxCancelled {
+				cancel()
+			}
 			defer func() {
 				if r := recover(); r != nil {
 					outs[i].Panic = fmt.Sprint(r)
